@@ -13,6 +13,7 @@
 #include "concurrent_queue.h"
 #include "cpu.h"
 #include "epoch.h"
+#include "verif_hook.h"
 
 namespace yakushima {
 
@@ -21,6 +22,7 @@ public:
     void fin() {
         // for cache
         if (std::get<gc_target_index>(cache_node_container_) != nullptr) {
+            YAKUSHIMA_VERIF_POINT(RECLAIM_NODE, std::get<gc_target_index>(cache_node_container_));
             delete std::get<gc_target_index>(cache_node_container_); // NOLINT
             std::get<gc_target_index>(cache_node_container_) = nullptr;
         }
@@ -28,11 +30,13 @@ public:
         while (!node_container_.empty()) {
             std::tuple<Epoch, base_node*> elem;
             if (!node_container_.try_pop(elem)) { continue; }
+            YAKUSHIMA_VERIF_POINT(RECLAIM_NODE, std::get<gc_target_index>(elem));
             delete std::get<gc_target_index>(elem); // NOLINT
         }
 
         // for cache
         if (std::get<gc_target_index>(cache_value_container_) != nullptr) {
+            YAKUSHIMA_VERIF_POINT(RECLAIM_VALUE, std::get<gc_target_index>(cache_value_container_));
             ::operator delete(
                     std::get<gc_target_index>(cache_value_container_),
                     std::get<gc_target_size_index>(cache_value_container_),
@@ -43,6 +47,7 @@ public:
         while (!value_container_.empty()) {
             std::tuple<Epoch, void*, std::size_t, std::align_val_t> elem;
             if (!value_container_.try_pop(elem)) { continue; }
+            YAKUSHIMA_VERIF_POINT(RECLAIM_VALUE, std::get<gc_target_index>(elem));
             ::operator delete(std::get<gc_target_index>(elem),
                               std::get<gc_target_size_index>(elem),
                               std::get<gc_target_align_index>(elem));
@@ -62,6 +67,7 @@ public:
             if (std::get<gc_epoch_index>(cache_node_container_) >= gc_epoch) {
                 return;
             }
+            YAKUSHIMA_VERIF_POINT(RECLAIM_NODE, std::get<gc_target_index>(cache_node_container_));
             delete std::get<gc_target_index>(cache_node_container_); // NOLINT
             std::get<gc_target_index>(cache_node_container_) = nullptr;
         }
@@ -74,6 +80,7 @@ public:
                 cache_node_container_ = elem;
                 return;
             }
+            YAKUSHIMA_VERIF_POINT(RECLAIM_NODE, std::get<gc_target_index>(elem));
             delete std::get<gc_target_index>(elem); // NOLINT
         }
     }
@@ -85,6 +92,7 @@ public:
             if (std::get<gc_epoch_index>(cache_value_container_) >= gc_epoch) {
                 return;
             }
+            YAKUSHIMA_VERIF_POINT(RECLAIM_VALUE, std::get<gc_target_index>(cache_value_container_));
             ::operator delete(
                     std::get<gc_target_index>(cache_value_container_),
                     std::get<gc_target_size_index>(cache_value_container_),
@@ -99,6 +107,7 @@ public:
                 cache_value_container_ = elem;
                 return;
             }
+            YAKUSHIMA_VERIF_POINT(RECLAIM_VALUE, std::get<gc_target_index>(elem));
             ::operator delete(std::get<gc_target_index>(elem),
                               std::get<gc_target_size_index>(elem),
                               std::get<gc_target_align_index>(elem));
